@@ -605,6 +605,13 @@ class sptenmat:
             self.subs = self.subs[sort_idx]
             self.vals = self.vals[sort_idx]
 
+        # Assigning zero removes the entry: leave no explicit zero
+        if self.subs.size > 0:
+            keep = np.nonzero(self.vals.reshape(-1))[0]
+            if keep.size != self.vals.size:
+                self.subs = self.subs[keep]
+                self.vals = self.vals[keep]
+
     def __repr__(self):
         """Return string representation of a :class:`pyttb.sptenmat`.
 
